@@ -76,10 +76,14 @@ def okStr (reqlen : Int) (out pending : Bytes) : String :=
 
 inductive Step
   | arrive (n : Nat)
+  | fixed (n : Nat)      -- "c<n>": n bytes arrive and reqbody_length := n before create_env
   | complete
 
 def parseSched (s : String) : Option (List Step) :=
-  (s.splitOn ",").mapM fun t => if t = "e" then some .complete else t.toNat?.map .arrive
+  (s.splitOn ",").mapM fun t =>
+    if t = "e" then some .complete
+    else if t.startsWith "c" then (t.drop 1).toString.toNat?.map .fixed
+    else t.toNat?.map .arrive
 
 def hasFlag (fl bit : Nat) : Bool := fl &&& bit ≠ 0
 
@@ -89,6 +93,7 @@ def runSched {σ : Type} (arrive : σ → Bytes → σ) (complete : σ → σ) :
   | [], _, st => st
   | .arrive n :: rest, body, st => runSched arrive complete rest (body.drop n) (arrive st (body.take n))
   | .complete :: rest, body, st => runSched arrive complete rest body (complete st)
+  | .fixed _ :: rest, body, st => runSched arrive complete rest body st     -- (only meaningful first)
 
 def caseLine (op : String) (t : List String) (ptoks : List String) : String :=
   match t with
@@ -160,13 +165,15 @@ def caseLine (op : String) (t : List String) (ptoks : List String) : String :=
             if op = "env" then echo ++ "env " ++ envStr (cgiEnv copts req) ++ " rc=0"
             else
             -- body schedule: first entry is queued when create_env runs
-            let (seg0, steps1, body1) : Bytes × List Step × Bytes :=
+            let (seg0, steps1, body1, bodyLen) : Bytes × List Step × Bytes × Int :=
               match steps with
-              | .arrive n :: rest => (bodyBytes.take n, rest, bodyBytes.drop n)
-              | other => ([], other, bodyBytes)
+              | .arrive n :: rest => (bodyBytes.take n, rest, bodyBytes.drop n, p.bodyLen)
+              | .fixed n :: rest => (bodyBytes.take n, rest, bodyBytes.drop n, ((bodyBytes.take n).length : Int))
+              | other => ([], other, bodyBytes, p.bodyLen)
+            let req := { req with bodyLen := bodyLen }
             if op = "fcgi" then
-              let role := if authorizer then Extracted.gwAuthorizer else Extracted.gwResponder
-              match Fcgi.createEnv role upgrade (cgiEnv copts req) p.bodyLen seg0 with
+              let role := if authorizer then Extracted.C09.gwAuthorizer else Extracted.C09.gwResponder
+              match Fcgi.createEnv role upgrade (cgiEnv copts req) bodyLen seg0 with
               | none => echo ++ "st=400"
               | some st =>
                 let st1 := runSched (Fcgi.arrive authorizer upgrade) (Fcgi.complete authorizer upgrade)
@@ -177,8 +184,8 @@ def caseLine (op : String) (t : List String) (ptoks : List String) : String :=
               let sopts : CgiOpts := { docroot := docroot }
               let env := cgiEnv sopts req
               let res : Uwsgi.Res :=
-                if op = "scgi" then .ok (Scgi.createEnv env p.bodyLen seg0)
-                else Uwsgi.createEnv env p.bodyLen seg0
+                if op = "scgi" then .ok (Scgi.createEnv env bodyLen seg0)
+                else Uwsgi.createEnv env bodyLen seg0
               match res with
               | .status c => echo ++ "st=" ++ toString c
               | .ok st =>
@@ -198,7 +205,7 @@ def caseLine (op : String) (t : List String) (ptoks : List String) : String :=
                   { method := p.method,
                     isGetOrHead := p.method = ofString "GET" || p.method = ofString "HEAD",
                     target := tg.target, h2ConnectExt := h2ext, version := version, host := p.host,
-                    bodyLen := p.bodyLen, scheme := scheme, isSsl := hasFlag fl 16, remoteAddr := raddr,
+                    bodyLen := bodyLen, scheme := scheme, isSsl := hasFlag fl 16, remoteAddr := raddr,
                     remoteUser := (renv.find? fun (k, v) => eqIcase k (ofString "REMOTE_USER") && !v.isEmpty).map (·.2),
                     headers := hs2 }
                 match Proxy.createEnv cfg preq seg0 with
